@@ -288,8 +288,16 @@ pub fn check_geo(prop: &str, g: &GeoCase, rep: &mut Report) {
             let s = s0.clone().extend(x);
             let tol = CU * (mag + s0.radius + x.distance(s0.center));
             let d = x.distance(s0.center);
-            if inside0 {
-                if s.center != s0.center || s.radius != s0.radius {
+            // whether the point is inside is decided here, not taken from `Sphere::contains` (whose answer is one of the
+            // things under test): clearly inside / clearly outside by a relative margin of 1e-8, at any absolute scale
+            let clearly_inside = s0.radius > 0. && d <= s0.radius * (1. - 1e-8);
+            let clearly_outside = d >= s0.radius * (1. + 1e-8) && d > 0.;
+            if (clearly_inside && !inside0) || (clearly_outside && inside0) {
+                rep.violations.push(viol(prop, "c19.contains_wrong", format!("Sphere::contains is {inside0} for a point at distance {d:e} from the centre of a sphere of radius {:e}", s0.radius), g));
+                return;
+            }
+            if !clearly_outside {
+                if clearly_inside && (s.center != s0.center || s.radius != s0.radius) {
                     rep.violations.push(viol(prop, "c19.extend_changed_containing_sphere", format!("extend changed a sphere that already contains the point"), g));
                 }
                 return;
